@@ -1,7 +1,7 @@
 (* C08: non-vacuity of the shallow = True theorem and of swap-with-renames on the pair of
    Proofs/IndexDiffExamples.v. *)
 From Coq Require Import NArith List Bool Arith Lia Permutation.
-From DvcData Require Import Base.Val Base.PyBase Gen.PyTypes Gen.IDiff Model.Trie Model.IndexDiff Proofs.IndexDiffProofsBase Proofs.IndexDiffBfs Proofs.IndexDiffRefine Proofs.IndexDiffRenames Proofs.IndexDiffExamples Proofs.IndexDiffShallow Proofs.IndexDiffSwapRen Proofs.IndexDiffRoots Proofs.IndexDiffSwapSh.
+From DvcData Require Import Base.Val Base.PyBase Gen.PyTypes Gen.IDiff Model.Trie Model.IndexDiff Proofs.IndexDiffProofsBase Proofs.IndexDiffBfs Proofs.IndexDiffRefine Proofs.IndexDiffRenames Proofs.IndexDiffExamples Proofs.IndexDiffShallow Proofs.IndexDiffSwapRen Proofs.IndexDiffRoots Proofs.IndexDiffSwapSh Proofs.IndexDiffRootsSh.
 Import ListNotations.
 Open Scope N_scope.
 
@@ -82,3 +82,28 @@ Proof.
   split; [vm_compute; reflexivity|]. split; [vm_compute; reflexivity|].
   intros H. inversion H as [|x l Hx _]; subst. apply Hx. now left.
 Qed.
+
+(* ---- roots together with shallow = True (code 32) --------------------------------------------------------------------- *)
+(* roots [d; y; z]: d is hashed, so nothing below it is listed (and nothing below it is "top" relative to the root
+   d); y is implicit, y/z is top.  Root x: x is a hashed file in old and a directory in new - x/w is listed but
+   compared against "absent" and is not top *)
+Example ex_roots_shallow_run :
+  option_map (map (fun c => (typ_code (c_typ c), change_key c, rtop (Some ex_old) (Some ex_new) ex_roots (change_key c))))
+    (diff_core_roots (opts_of_code 32) (Some ex_old) (Some ex_new) ex_roots
+       (fuel_for_roots (Some ex_old) (Some ex_new) ex_roots)) =
+  Some [ (2, [[100]], true); (1, [[121];[122]], true) ].
+Proof. vm_compute. reflexivity. Qed.
+
+Example ex_roots_shallow_ref :
+  map (fun c => (typ_code (c_typ c), change_key c))
+    (flat_map (cls (opts_of_code 32) (Some ex_old) (Some ex_new))
+       (filter (rtop (Some ex_old) (Some ex_new) ex_roots) (all_keys (Some ex_old) (Some ex_new)))) =
+  [ (2, [[100]]); (1, [[121];[122]]) ].
+Proof. vm_compute. reflexivity. Qed.
+
+Example ex_roots_shallow_x :
+  option_map (map (fun c => (typ_code (c_typ c), change_key c, rtop (Some ex_old) (Some ex_new) [[[120]]] (change_key c))))
+    (diff_core_roots (opts_of_code 32) (Some ex_old) (Some ex_new) [[[120]]]
+       (fuel_for_roots (Some ex_old) (Some ex_new) [[[120]]])) =
+  Some [ (2, [[120]], true); (1, [[120];[119]], false) ].
+Proof. vm_compute. reflexivity. Qed.
